@@ -192,9 +192,15 @@ StepSess(s) ==
           \* the connection is gone: session end in the core.  If it was the SERVER that ended the session
           \* (field srv), the specification must have ended it before: a request whose handling ends the
           \* session.  A server that drops sessions for no reason, or dies, is not explained.
-          /\ Has(j, "srv") => ~ss[ClientOf(s)].open
-          /\ CoreStep([op |-> "disconnect", c |-> ClientOf(s)])
-          /\ ss' = [ss EXCEPT ![ClientOf(s)].open = FALSE]
+          \* Where exactly the server ended it is not observable when the unanswered tail of the log starts
+          \* with acquire-lock requests (pending ones are legitimately unanswered): the recording carries a
+          \* marker behind each candidate; the session ends at the first marker at which the specification
+          \* has ended it, the others are skipped; at the last one it must have ended.
+          /\ (Has(j, "srv") /\ Has(j, "last")) => ~ss[ClientOf(s)].open
+          /\ IF Has(j, "srv") /\ (ss[ClientOf(s)].open \/ ClientOf(s) \notin S.clients)
+               THEN UNCHANGED <<S, R, out, exp, act, cons, outc, ss>>
+               ELSE /\ CoreStep([op |-> "disconnect", c |-> ClientOf(s)])
+                    /\ ss' = [ss EXCEPT ![ClientOf(s)].open = FALSE]
           /\ UNCHANGED acq
         ELSE
           LET c  == ClientOf(s)
